@@ -176,6 +176,8 @@ int main(int argc, char **argv)
             sc.r = new Router(mode == 1 ? OrthogonalRouting : PolyLineRouting);
             sc.r->setRoutingParameter(idealNudgingDistance, num(nd));
             if (pen >= 0) sc.r->setRoutingParameter(segmentPenalty, pen);
+            // optional 5th field: 0 switches the (default-on) hyperedge improvement off
+            { std::string h; if (is >> h) sc.r->setRoutingOption(improveHyperedgeRoutesMovingJunctions, h != "0"); }
             printf("SCENE %s\n", sid.c_str());
             continue;
         }
